@@ -15,7 +15,7 @@ from __future__ import annotations
 import os
 
 from engine import core
-from rules import delegation, shared_outalias, shared_readonly, shared_selfalias, shared_viewupdate
+from rules import delegation, shared_lazycache, shared_trunc, shared_outalias, shared_readonly, shared_selfalias, shared_viewupdate
 
 
 def run(rep: core.Report, pid: str) -> None:
@@ -29,3 +29,5 @@ def run(rep: core.Report, pid: str) -> None:
     shared_outalias.run(rep, f"R{xx}y.outalias", files)
     shared_selfalias.run(rep, f"R{xx}y.selfalias", files)
     shared_readonly.run(rep, f"R{xx}y.readonly", files, 0)
+    shared_trunc.run_int_calls(rep, f"R{xx}y.inttrunc", files)
+    shared_lazycache.run(rep, f"R{xx}y.lazycache", files)
